@@ -118,6 +118,8 @@ def plan_run(run_seed, prop):
     if plan_pipeline_hint:
         plan["pipeline"] = plan_pipeline_hint
     plan["shared_backend"] = tp.chance(0.25)
+    plan["header_first"] = tp.chance(0.15)
+    plan["sibling"] = tp.chance(0.8)
     plan["inject_shifted"] = tp.sample(sorted(k for k in GS.SIGS if GS.has_unitary(k) and "f" in GS.SIGS[k]), tp.randint(1, 3)) if (plan["pipeline"] == "autoload" and tp.chance(0.6)) else None
     if many:
         plan.update(many_shots=many, pipeline="plain", disturb=None, scan=False, rerun=False, sampler_mode="faithful")
@@ -220,7 +222,7 @@ def parse_with(plan, text, G, pipeline, scratch=None):
 
     if pipeline in ("autoload", "run_string", "run_file"):
         # the gate set comes from a pulse-definition module named by the program
-        ov = plan["overrides"] or None
+        ov = dict(plan["overrides"]) if plan["overrides"] else None  # (a copy: the plan itself stays as planned)
         inj = None
         if pipeline == "autoload" and plan.get("inject_shifted"):
             # injected definitions (another convention) override the imported ones
@@ -230,7 +232,7 @@ def parse_with(plan, text, G, pipeline, scratch=None):
     from jaqalpaq.core.algorithm import expand_macros, fill_in_let, expand_subcircuits
     from jaqalpaq.core.algorithm.fill_in_map import fill_in_map
 
-    ov = plan["overrides"] or None
+    ov = dict(plan["overrides"]) if plan["overrides"] else None  # (a copy: the plan itself stays as planned)
     kw = dict(inject_pulses=G, autoload_pulses=False)
     if pipeline == "plain" and not ov:
         return parse_jaqal_string(text, **kw)
@@ -297,6 +299,9 @@ def check_result(viol, tag, res, M, R, sampler, mode):
     # --- C08.3 number of subcircuits in flat order
     if len(res.subcircuits) != len(psi):
         viol.add("C08", "subcircuit_count", "mismatch", tag, "got %d want %d" % (len(res.subcircuits), len(psi)))
+        # (C03 speaks of the state reported for each subcircuit: one that is not reported
+        # at all, or a surplus one, has no correct state either)
+        viol.add("C03", "state_vector", "mismatch", tag, "the emulator reports %d subcircuits, the program has %d" % (len(res.subcircuits), len(psi)))
         return
     for i, sc in enumerate(res.subcircuits):
         if sc.index != i:
@@ -505,6 +510,11 @@ def execute(plan):
             holder = {}
 
             def job():
+                if plan.get("header_first"):
+                    # a caller that looks at the header (register size, lets) before parsing
+                    from jaqalpaq.parser.parser import parse_jaqal_string_header
+
+                    parse_jaqal_string_header(text)
                 c = parse_with(plan, text, G, pipeline, scratch)
                 holder["c"] = c
                 if pipeline == "run_string" and not ov:
@@ -681,6 +691,64 @@ def execute(plan):
                         viol.add("C08", "valid_program_runs", o4["kind"], o4["where"], msg)
                         log.append(("scan", o4["kind"]))
 
+    # --- C03: the caller's ONE override dictionary object handed to two programs that declare
+    # the same names: the second program's own let values apply wherever the dictionary
+    # says nothing
+    if plan.get("sibling") and ov and okA and scratch is None and any(nm not in ov for nm, _ in plan["prog"]["lets"]):
+        from jaqalpaq.parser import parse_jaqal_string
+        from jaqalpaq.core.algorithm import fill_in_let
+
+        tb = st.get("sibling")
+        prog2 = M2 = None
+        for _ in range(8):
+            cand2 = copy.deepcopy(plan["prog"])
+            for item in cand2["lets"]:
+                if item[0] not in ov and tb.chance(0.8):
+                    item[1] = tb.choice(gen.INT_VALUES) if isinstance(item[1], int) else tb.choice(gen.FLOAT_VALUES)
+            if cand2["lets"] == plan["prog"]["lets"]:
+                continue
+            try:
+                R2 = progast.resolve(cand2, ov, executable=True)
+            except progast.Invalid:
+                continue
+            M2c = refmachine.Machine(R2)
+            M2c.static_pass(st.get("schedA3"))
+            M2c.dynamic_pass(st.get("schedB3"))
+            # only a sibling that behaves differently says anything
+            if M2c.visits == M.visits and len(M2c.psi) == len(M.psi) and all(a.shape == b.shape and np.abs(a - b).max() < 1e-9 for a, b in zip(M2c.psi, M.psi)):
+                continue
+            prog2, M2 = cand2, M2c
+            break
+        if prog2 is not None:
+            probe("one_override_object_for_two_programs")
+            text2 = progast.render(prog2, progast.Layout(st.get("layout:sibling"), cfg["layout_noise"]))
+            D = dict(ov)  # the caller's one object
+            via_pass = tb.chance(0.5)
+
+            def with_D(txt):
+                if via_pass:
+                    return fill_in_let(parse_jaqal_string(txt, inject_pulses=G, autoload_pulses=False), override_dict=D)
+                return parse_jaqal_string(txt, inject_pulses=G, autoload_pulses=False, expand_let=True, override_dict=D)
+
+            s5 = seams.SimSampler(st.get("sampler:sibling"), "faithful")
+            old5 = seams.install_sampler(s5)
+            try:
+                o5a = seams.outcome_of(lambda: run_jaqal_circuit(with_D(texts[0][1])), clock, budget)
+                s5.calls.clear()
+                o5 = seams.outcome_of(lambda: run_jaqal_circuit(with_D(text2)), clock, budget_for(M2, R2, prog2))
+            finally:
+                seams.install_sampler(old5)
+            if o5["kind"] == "ok":
+                check_result(viol, "second program, same override object %r" % (ov,), o5["value"], M2, R2, s5, "faithful")
+                log.append(("sibling", result_digest(o5["value"])))
+            elif o5["kind"] == "nonterm":
+                viol.add("C08", "termination", "nonterm", o5["where"], "second program with the same override object")
+            else:
+                msg = "second program with the same override object %r: %s: %s" % (ov, o5["kind"], o5["exc"])
+                viol.add("C03", "valid_program_runs", o5["kind"], o5["where"], msg)
+                viol.add("C08", "valid_program_runs", o5["kind"], o5["where"], msg)
+                log.append(("sibling", o5["kind"]))
+
     # --- the job API: execute the same job twice, reading the views in between (C15)
     if okA and circuits.get("A") is not None and plan.get("rerun") is not None and st.get("pipeline2").chance(0.3):
         from jaqalpaq.emulator.unitary import UnitarySerializedEmulator
@@ -758,7 +826,22 @@ def execute(plan):
         "mixed": encode_outputs(vals, n, "mixed", hw),
     }
     hist = {}
-    for tag in [t for t in ("A", "B") if t in circuits and circuits[t] is not None]:
+    # (without definitions an idle gate is a gate like any other and counts as using its
+    # qubits, so a program that is valid because a parallel branch only idles is not)
+    if st.get("hardware:anon").chance(0.4) and not plan.get("many_shots") and not ({"idle_gate", "parallel_block"} <= set(R.features)):
+        # the usual setup on the hardware side: the text parsed without any pulse
+        # definitions (every gate, the bounding ones included, is an anonymous gate)
+        from jaqalpaq.parser import parse_jaqal_string as _pjs_anon
+
+        textA = texts[0][1]
+        oN = seams.outcome_of(lambda: _pjs_anon(textA, autoload_pulses=False, expand_let=bool(ov), override_dict=(dict(ov) if ov else None)), clock, budget)
+        if oN["kind"] == "ok":
+            circuits["N"] = oN["value"]
+            probe("hardware_outputs_for_a_circuit_without_gate_definitions")
+        else:
+            msg = "parse without pulse definitions: %s: %s" % (oN["kind"], oN.get("exc"))
+            viol.add("C08", "output_list_runs", oN["kind"], oN.get("where", ""), msg)
+    for tag in [t for t in ("A", "B", "N") if t in circuits and circuits[t] is not None]:
         encs = ("int", "str", "mixed") if tag == "A" else (plan["hw_encoding"],)
         if plan.get("many_shots"):
             encs = (plan["hw_encoding"],)
@@ -770,7 +853,7 @@ def execute(plan):
                 h = [(r.as_int, r.subcircuit.index) for r in res.readouts]
                 hist[key] = h
                 log.append(("hw", tag, enc, hexdigest(h)))
-                if enc == plan["hw_encoding"] or tag == "B":
+                if enc == plan["hw_encoding"] or tag in ("B", "N"):
                     want = list(zip(vals, M.visits))
                     if h != want:
                         viol.add("C08", "output_list_attribution", "mismatch", tag + ":" + enc, "got %r want %r" % (h[:20], want[:20]))
